@@ -306,17 +306,20 @@ impl GenerationPass for AvailableValuePass {
                         // ... and the calling convention says nothing about the
                         // CSRs: a callee that works with CSRs may write them, and
                         // whatever they point to. One that names no CSR cannot.
-                        let csrs_are_safe = node
+                        // (`None`: the callee is not known, it may name any)
+                        let named = node
                             .calls_to_from_cfg(cfg)
-                            .is_some_and(|(callee, _)| !touches_csrs(cfg, &callee, &mut Vec::new()));
+                            .and_then(|(callee, _)| csrs_named_by(cfg, &callee, &mut Vec::new()));
+                        let is_safe =
+                            |csr: &CsrImm| named.as_ref().is_some_and(|set| !set.contains(csr));
                         map = retain_values(map, |location, _| match (location, curr_stack) {
                             (MemoryLocation::StackOffset(slot), Some(curr)) => *slot >= curr,
                             (MemoryLocation::StackOffset(_), None) => false,
                             (
-                                MemoryLocation::CsrRegister(_)
-                                | MemoryLocation::CsrRegisterValueOffset(..),
+                                MemoryLocation::CsrRegister(csr)
+                                | MemoryLocation::CsrRegisterValueOffset(csr, _),
                                 _,
-                            ) => csrs_are_safe,
+                            ) => is_safe(csr),
                         });
                     }
                     map
@@ -355,13 +358,23 @@ impl GenerationPass for AvailableValuePass {
                     redefined |= Register::return_addr_set();
                 }
                 // (a callee that works with CSRs may write the words behind them)
-                let memory_may_change = node.calls_to().is_some()
-                    && !node
-                        .calls_to_from_cfg(cfg)
-                        .is_some_and(|(callee, _)| !touches_csrs(cfg, &callee, &mut Vec::new()));
+                let named_by_callee = if node.calls_to().is_some() {
+                    Some(
+                        node.calls_to_from_cfg(cfg)
+                            .and_then(|(callee, _)| csrs_named_by(cfg, &callee, &mut Vec::new())),
+                    )
+                } else {
+                    None
+                };
                 let still_valid = |value: &AvailableValue| {
                     !matches!(value, AvailableValue::RegisterWithScalar(reg, _) if redefined.contains(reg))
-                        && !(memory_may_change && matches!(value, AvailableValue::MemoryAtCsr(..)))
+                        && match (value, &named_by_callee) {
+                            // a call: the word survives a callee that does not name its CSR
+                            (AvailableValue::MemoryAtCsr(csr, _), Some(named)) => {
+                                named.as_ref().is_some_and(|set| !set.contains(csr))
+                            }
+                            _ => true,
+                        }
                 };
                 // The zero register cannot be written: an instruction that names
                 // it as its destination leaves no value behind
@@ -411,25 +424,35 @@ fn retain_values<T: PartialEq + Eq + Hash>(
     kept
 }
 
-/// Does a function, or a function it calls, contain an instruction that names
-/// a CSR? (A call of something that is no known function counts as one.)
-fn touches_csrs(
+/// The CSRs that a function, or a function it calls, names in an instruction.
+/// `None` when a call leads to something that is no known function.
+fn csrs_named_by(
     cfg: &crate::cfg::Cfg,
     function: &Rc<crate::cfg::Function>,
     seen: &mut Vec<Rc<crate::cfg::Function>>,
-) -> bool {
+) -> Option<HashSet<CsrImm>> {
+    let mut named = HashSet::new();
     if seen.iter().any(|f| Rc::ptr_eq(f, function)) {
-        return false;
+        return Some(named);
     }
     seen.push(Rc::clone(function));
     let nodes = function.nodes().clone();
-    nodes.iter().any(|node| {
-        matches!(node.node(), ParserNode::Csr(_) | ParserNode::CsrI(_))
-            || (node.calls_to().is_some()
-                && node
-                    .calls_to_from_cfg(cfg)
-                    .is_none_or(|(callee, _)| touches_csrs(cfg, &callee, seen)))
-    })
+    for node in &nodes {
+        match node.node() {
+            ParserNode::Csr(expr) => {
+                named.insert(expr.csr.get_cloned());
+            }
+            ParserNode::CsrI(expr) => {
+                named.insert(expr.csr.get_cloned());
+            }
+            _ => {}
+        }
+        if node.calls_to().is_some() {
+            let (callee, _) = node.calls_to_from_cfg(cfg)?;
+            named.extend(csrs_named_by(cfg, &callee, seen)?);
+        }
+    }
+    Some(named)
 }
 
 /// The CSR an instruction writes, and whether the new content is unknown (a
